@@ -134,6 +134,18 @@ func VerifH_c07_ttl_rules() {
 		{preHash, []string{"HSET", "k", "f9", "x"}, true}, {preHash, []string{"HINCRBY", "k", "n", "1"}, true}, {preHash, []string{"HDEL", "k", "nofield"}, true},
 		{preSet, []string{"SADD", "k", "m9"}, true}, {preSet, []string{"SREM", "k", "nomember"}, true}, {preSet, []string{"SUNIONSTORE", "k", "k4", "k4"}, false},
 		{preSet, []string{"SDIFFSTORE", "k", "k4", "k5"}, false}, {preSet, []string{"SINTERSTORE", "k", "k4", "k4"}, false},
+		// SET ... KEEPTTL keeps the deadline of whatever it overwrites
+		{preList, []string{"SET", "k", "n", "KEEPTTL"}, true}, {preHash, []string{"SET", "k", "n", "KEEPTTL"}, true}, {preSet, []string{"SET", "k", "n", "XX", "KEEPTTL"}, true},
+		{preHash, []string{"SET", "k", "n"}, false}, {preSet, []string{"SET", "k", "n", "XX"}, false},
+		// more in-place writers / replacing writers of every type
+		{preList, []string{"RPUSH", "k", "x", "y"}, true}, {preList, []string{"RPOPLPUSH", "k", "k"}, true}, {preList, []string{"LMOVE", "k2l", "k", "LEFT", "RIGHT"}, true},
+		{preList, []string{"LREM", "k", "0", "nosuch"}, true}, {preList, []string{"LPUSHX", "k", "x"}, true},
+		{preHash, []string{"HSETNX", "k", "f9", "x"}, true}, {preHash, []string{"HMSET", "k", "f1", "x"}, true}, {preHash, []string{"HINCRBYFLOAT", "k", "n", "1.5"}, true},
+		{preSet, []string{"SMOVE", "k4", "k", "m1"}, true}, {preSet, []string{"SMOVE", "k", "k4", "nosuch"}, true},
+		{preString, []string{"INCRBYFLOAT", "k", "1.5"}, true}, {preString, []string{"DECRBY", "k", "2"}, true}, {preString, []string{"SETBIT", "k", "9", "0"}, true},
+		{preString, []string{"COPY", "k2", "k", "REPLACE"}, false}, {preString, []string{"RENAME", "k2", "k"}, false}, {preList, []string{"COPY", "k2l", "k", "REPLACE"}, false},
+		{preString, []string{"SETNX", "k", "n"}, true}, {preString, []string{"MSETNX", "k", "n"}, true}, {preString, []string{"SET", "k", "n", "NX"}, true},
+		{preString, []string{"TOUCH", "k"}, true}, {preString, []string{"TYPE", "k"}, true}, {preString, []string{"DUMP", "k"}, true}, {preString, []string{"OBJECT", "ENCODING", "k"}, true},
 	}
 	r := rules[vChoice("rule", len(rules))]
 	vCmd(cs, "SET", "k2", "\xf0")
